@@ -51,7 +51,7 @@ def dir? : Sexp → Option Dir
   | .list [.atom "Strip", e] => do let e ← optExpr? e; pure (.strip e)
   | _ => none
 
-partial def node? : Sexp → Option Tmpl.Node
+partial def node? : Sexp → Option TNode
   | .list [.atom "T", .str s] => some (.text s)
   | .list [.atom "E", x] => do let x ← xexpr? x; pure (.expr x)
   | .list [.atom "EL", .str tag, .list attrs, .list dirs, .list kids] => do
@@ -84,7 +84,7 @@ def elemFormOk (markup : Bool) : Dir → Bool
   | .replace _ => markup
   | _ => true
 
-partial def nodeOk (markup : Bool) : Tmpl.Node → Bool
+partial def nodeOk (markup : Bool) : TNode → Bool
   | .text _ | .expr _ => true
   | .elem _ _ _ kids => markup && kids.all (nodeOk markup)
   | .delem d kids => elemFormOk markup d && kids.all (nodeOk markup)
@@ -92,7 +92,7 @@ partial def nodeOk (markup : Bool) : Tmpl.Node → Bool
 def errName : Err → String
   | .type => "type" | .index => "index" | .key => "key" | .undefined => "undefined"
   | .runtime => "runtime" | .attribute => "attribute" | .value => "value"
-  | .stopiter => "stopiter" | .fuel => "fuel" | .unmodelled => "unmodelled"
+  | .stopiter => "genstop" | .fuel => "fuel" | .unmodelled => "unmodelled"
 
 def outRes : Except Err (List Event) → Sexp
   | .ok evs => .list [.atom "ok", streamToSexp evs]
